@@ -403,6 +403,13 @@ func (handler *Handler) ProxyClientConnection(ctx context.Context, errCh chan<- 
 			if err := handler.acracensor.HandleQuery(query); err != nil {
 				censorSpan.End()
 				clientLog.WithError(err).WithField(logging.FieldKeyEventCode, logging.EventCodeErrorCensorQueryIsNotAllowed).Errorln("Error on AcraCensor check")
+				if cmd == CommandStatementPrepare {
+					// for the client its last COM_STMT_PREPARE has failed: a MariaDB COM_STMT_EXECUTE with statement id -1
+					// ("the statement prepared last, if no COM_STMT_PREPARE has failed since") must not run the statement
+					// of an earlier, accepted COM_STMT_PREPARE, which is what the database (it never saw this one) would do
+					handler.protocolState.SetPendingParse(nil)
+					handler.protocolState.SetPendingQuerySettings(nil)
+				}
 				if err := handler.sendCommandError(QueryExecutionWasInterrupted, packet); err != nil {
 					handler.logger.WithError(err).WithField(logging.FieldKeyEventCode, logging.EventCodeErrorResponseConnectorCantWriteToClient).
 						Errorln("Can't write response with error to client")
@@ -437,6 +444,16 @@ func (handler *Handler) ProxyClientConnection(ctx context.Context, errCh chan<- 
 			censorSpan.End()
 			break
 		case CommandStatementExecute:
+			if len(data) >= 4 && binary.LittleEndian.Uint32(data) == MariaDBDirectStatementID && handler.protocolState.PendingParse() == nil {
+				// no COM_STMT_PREPARE was accepted on this connection yet, or the last one was rejected by AcraCensor:
+				// there is no statement the id -1 can stand for (PendingParse() was dereferenced here: nil pointer panic)
+				clientLog.Errorln("COM_STMT_EXECUTE of the last prepared statement without an accepted COM_STMT_PREPARE")
+				if err := handler.sendCommandError(QueryExecutionWasInterrupted, packet); err != nil {
+					handler.logger.WithError(err).WithField(logging.FieldKeyEventCode, logging.EventCodeErrorResponseConnectorCantWriteToClient).
+						Errorln("Can't write response with error to client")
+				}
+				continue
+			}
 			stmtID, err := handler.handleStatementExecute(ctx, packet)
 			if err != nil {
 				errCh <- base.NewClientProxyError(err)
